@@ -88,6 +88,13 @@ func (cr *caseRunner) run(s scenario) {
 	c := getCorpus(s.Corpus)
 	q := s.queryText()
 	cr.tr++
+	if s.Prime == "" && s.Entry != "cli" { // most cases are preceded by a related search on the same objects
+		if k := (cr.tr * 7) % (len(primeKinds) + 2); k < len(primeKinds) {
+			s.Prime = primeKinds[k]
+		}
+	} else if s.Prime == "none" {
+		s.Prime = ""
+	}
 	ev := &caseEv{Op: "case", Tr: cr.tr, Sc: s, Q: q, N: len(c.db.Commands), Off: [][]int{}, Reps: []int{}, RepKind: []string{}, Vars: []int{}, VarQs: []string{}, Sugs: []int{}, NoB: [][]int{}, BCmp: [][]int{}}
 	if len(q) > 80 {
 		ev.Q = q[:80]
